@@ -56,6 +56,30 @@ def run_case(case, acc, order):
                     acc.violation(sig, core.make_record(
                         PROP, 'model', sig, case=case, op={'template': t}, expected=exp, observed=got),
                         order)
+            # the assignment array is documented as updatable in memory (manual clustering): after an
+            # in-place merge of the two lowest ids into a new id the queries must follow the array
+            ids = sorted(set(sc))
+            if len(ids) >= 2:
+                new = max(sc) + 1
+                sc2 = [new if x in ids[:2] else x for x in sc]
+                m.spike_clusters[:] = np.array(sc2, dtype=m.spike_clusters.dtype)
+                for c in [new] + ids[:2]:
+                    exp = [i for i in range(len(sc2)) if sc2[i] == c]
+                    exp_counts = [sum(1 for i in exp if st[i] == t) for t in range(nt)]
+                    for name, e, call in (
+                            ('get_cluster_spikes', exp, lambda: m.get_cluster_spikes(c)),
+                            ('get_template_counts', exp_counts, lambda: m.get_template_counts(c))):
+                        try:
+                            got = [int(x) for x in np.asarray(call()).tolist()]
+                        except Exception as ex:
+                            got = repr(ex)
+                        acc.step(True, 'model:after-in-memory-merge')
+                        if got != e:
+                            sig = '%s/model/%s,after-in-memory-update/%s' % (
+                                PROP, name, 'value' if isinstance(got, list) else 'exception')
+                            acc.violation(sig, core.make_record(
+                                PROP, 'model', sig, case=case, op={'cluster': c, 'spike_clusters': sc2},
+                                expected=e, observed=got), order)
         finally:
             m.close()
     if order % 61 == 0:
